@@ -336,6 +336,7 @@ struct St {
 	pool_keys: BTreeSet<u64>,
 	n_mon_rt: u64, n_mon_identical: u64, n_upd_rt: u64, n_apply: u64, n_apply_skipped: u64, n_det: u64, n_ev: u64, n_mgr: u64, n_graph: u64, n_scorer: u64, n_shadow: u64, n_rare_runs: u64, n_rare_cuts: u64,
 	mon_states: BTreeSet<String>,
+	scorer_entry: Option<Vec<u8>>, // one real `ChannelLiquidity` encoding (length-prefixed TLV block), template of the boundary-size scorers
 }
 fn histogram(b: &[u8]) -> [u32; 256] { let mut h = [0u32; 256]; for x in b { h[*x as usize] += 1; } h }
 fn fnv(b: &[u8]) -> u64 { let mut h = 0xcbf29ce484222325u64; for x in b { h ^= *x as u64; h = h.wrapping_mul(0x100000001b3); } h }
@@ -499,7 +500,7 @@ fn check_graph_scorer(net: &Net, i: usize, st: &mut St, ctx: &mut Ctx, op: &str)
 			st.n_scorer += 1;
 			let (a, b) = (canon_scorer(&sb), canon_scorer(&sc2.encode()));
 			if a.is_none() || a != b { ctx.fail(format!("after {}: ProbabilisticScorer over the graph of node {} does not round trip: {}", op, i, hex(&sb[..sb.len().min(300)]))); }
-			else { st.mon_states.insert(format!("scorer-entries:{}", a.unwrap().len().min(4))); }
+			else { let a = a.unwrap(); if let Some(e) = a.iter().max_by_key(|e| e.1.len()) { if st.scorer_entry.as_ref().map_or(true, |t| t.len() < e.1.len()) { st.scorer_entry = Some(e.1.clone()); } } st.mon_states.insert(format!("scorer-entries:{}", a.len().min(4))); }
 		},
 		other => ctx.fail(format!("after {}: ProbabilisticScorer does not read back: {:?}", op, other.map(|r| r.map(|_| ())))),
 	}
@@ -1276,6 +1277,109 @@ fn rare_states(seed: u64, st: &mut St, ctx: &mut Ctx) {
 }
 
 // ---------------------------------------------------------------------------------------------------
+
+// ---------------------------------------------------------------------------------------------------
+// (vii) length / integer primitives: CollectionLength, BigSize, HighZeroBytesDroppedBigSize — differential against the
+// functions TRANSLATED from util/ser.rs (Generated/SerPrims.lean, ops colllen / colllen_rd / bigsize / bigsize_rd / hzd_rd)
+// + model-free oracles (read(write n) = n with nothing left over), and collections of BOUNDARY size (65534 / 65535 /
+// 65536 entries: byte blob, String, Vec<u32>, BTreeMap, HashMap, HashSet, a ProbabilisticScorer with that many channel
+// liquidities) written and read back.
+// ---------------------------------------------------------------------------------------------------
+/// the CollectionLength encoding written down independently of the code under test (doc comment of `CollectionLength`)
+fn colllen_by_hand(n: u64) -> Vec<u8> { if n < 0xffff { (n as u16).to_be_bytes().to_vec() } else { let mut v = vec![0xff, 0xff]; v.extend_from_slice(&(n - 0xffff).to_be_bytes()); v } }
+
+fn ser_prims(st: &mut St, ctx: &mut Ctx) {
+	use lightning::util::ser::CollectionLength;
+	let rd_ans = |r: Result<(u64, usize), DecodeError>| match r { Ok((n, left)) => format!("ok {} {}", n, left), Err(e) => format!("err {}", err_name(&e)) };
+	let coll_rd = |b: &[u8]| { let mut s = b; <CollectionLength as Readable>::read(&mut s).map(|c| (c.0, s.len())) };
+	let big_rd = |b: &[u8]| { let mut s = b; <BigSize as Readable>::read(&mut s).map(|c| (c.0, s.len())) };
+	let mut vals: Vec<u64> = vec![0, 1, 0xfb, 0xfc, 0xfd, 0xfe, 0xff, 0x100, 0xfffd, 0xfffe, 0xffff, 0x10000, 0x10001, 0x1fffd, 0x1fffe, 0x1ffff, 0x20000, 0xffff_fffe, 0xffff_ffff,
+		0x1_0000_0000, 0x1_0000_fffe, 0x1_0000_ffff, 0x1_0001_0000, u64::MAX - 0x10000, u64::MAX - 0xffff, u64::MAX - 0xfffe, u64::MAX - 1, u64::MAX];
+	for _ in 0..(if ctx.thorough { 4000 } else { 400 }) { let v = ctx.rng.next() >> ctx.rng.below(64); vals.push(v); if ctx.rng.chance(1, 4) { vals.push(0xffffu64.wrapping_add(ctx.rng.below(5)).wrapping_sub(2)); } }
+	for &n in vals.iter() {
+		// writers
+		let e = CollectionLength(n).encode();
+		ctx.rec.case(&format!("colllen {}", n), &hex(&e), &format!("colllen:{}", e.len()), true);
+		if coll_rd(&e).ok() != Some((n, 0)) || e != colllen_by_hand(n) { ctx.fail_once("colllen-rt", format!("CollectionLength({}) is written as {} and read back as {:?} (expected encoding {})", n, hex(&e), coll_rd(&e), hex(&colllen_by_hand(n)))); }
+		let e = BigSize(n).encode();
+		ctx.rec.case(&format!("bigsize {}", n), &hex(&e), &format!("bigsize:{}", e.len()), true);
+		if big_rd(&e).ok() != Some((n, 0)) { ctx.fail_once("bigsize-rt", format!("BigSize({}) is written as {} and read back as {:?}", n, hex(&e), big_rd(&e))); }
+		// readers: the hand-made valid encoding with a suffix, every strict prefix of it, and the value re-framed in every width
+		let mut b = colllen_by_hand(n); let sl = ctx.rng.below(4) as usize; let suffix = ctx.rng.bytes(sl); b.extend_from_slice(&suffix);
+		let a = rd_ans(coll_rd(&b));
+		ctx.rec.case(&format!("colllen_rd {}", hex(&b)), &a, &format!("colllen_rd:{}", a.split(' ').take(if a.starts_with("ok") { 1 } else { 2 }).collect::<Vec<_>>().join(":")), true);
+		if a != format!("ok {} {}", n, suffix.len()) { ctx.fail_once("colllen-rd", format!("the CollectionLength encoding {} of {} is read as `{}`", hex(&b), n, a)); }
+		for k in 0..colllen_by_hand(n).len() { let a = rd_ans(coll_rd(&b[..k])); ctx.rec.case(&format!("colllen_rd {}", hex(&b[..k])), &a, "colllen_rd:trunc", true); if a.starts_with("ok") { ctx.fail_once("colllen-trunc", format!("truncated CollectionLength {} read as `{}`", hex(&b[..k]), a)); } }
+		for (tag, w) in [(0xfdu8, 2usize), (0xfe, 4), (0xff, 8)] {
+			let mut b = vec![tag]; b.extend_from_slice(&n.to_be_bytes()[8 - w..]); b.extend_from_slice(&suffix);
+			let a = rd_ans(big_rd(&b));
+			ctx.rec.case(&format!("bigsize_rd {}", hex(&b)), &a, &format!("bigsize_rd:{:02x}:{}", tag, a.split(' ').take(if a.starts_with("ok") { 1 } else { 2 }).collect::<Vec<_>>().join(":")), true);
+			let k = ctx.rng.below(b.len() as u64) as usize; let a = rd_ans(big_rd(&b[..k])); ctx.rec.case(&format!("bigsize_rd {}", hex(&b[..k])), &a, "bigsize_rd:trunc", true);
+		}
+		if n < 0xfd { let a = rd_ans(big_rd(&[n as u8, 7])); ctx.rec.case(&format!("bigsize_rd {}", hex(&[n as u8, 7])), &a, "bigsize_rd:1", true); }
+		// HighZeroBytesDroppedBigSize: the written form, a zero-extended form, an over-long reader
+		for w in [2usize, 4, 8] {
+			let v = if w == 8 { n } else { n & ((1u64 << (8 * w)) - 1) };
+			let e = vh::hzd_write(w, v);
+			let a = rd_ans(vh::hzd_read(w, &e));
+			ctx.rec.case(&format!("hzd_rd {} {}", w, hex(&e)), &a, &format!("hzd_rd:{}:{}", w, e.len()), true);
+			if a != format!("ok {} 0", v) { ctx.fail_once("hzd-rt", format!("HighZeroBytesDroppedBigSize<u{}>({}) is written as {} and read back as `{}`", 8 * w, v, hex(&e), a)); }
+			let mut z = vec![0u8]; z.extend_from_slice(&e); let a = rd_ans(vh::hzd_read(w, &z));
+			ctx.rec.case(&format!("hzd_rd {} {}", w, hex(&z)), &a, "hzd_rd:zero-extended", true);
+			let mut l = n.to_be_bytes().to_vec(); l.extend_from_slice(&suffix); let a = rd_ans(vh::hzd_read(w, &l));
+			ctx.rec.case(&format!("hzd_rd {} {}", w, hex(&l)), &a, "hzd_rd:long", true);
+		}
+	}
+	// marker without payload, overflowing payloads, random byte strings
+	let mut raws: Vec<Vec<u8>> = vec![vec![0xff, 0xff], vec![0xff, 0xff, 0xff, 0xff, 0xff, 0xff, 0xff, 0xff, 0xff, 0xff], vec![0xff, 0xff, 0xff, 0xff, 0xff, 0xff, 0xff, 0xff, 0x00, 0x00], vec![0xff, 0xff, 0xff, 0xff, 0xff, 0xff, 0xff, 0xff, 0x00, 0x01], vec![0xff, 0xff, 0, 0, 0, 0, 0, 0, 0]];
+	for _ in 0..(if ctx.thorough { 3000 } else { 300 }) { let k = ctx.rng.below(12) as usize; let mut b = ctx.rng.bytes(k); if !b.is_empty() && ctx.rng.chance(1, 2) { b[0] = *ctx.rng.pick(&[0xfcu8, 0xfd, 0xfe, 0xff]); if b.len() > 1 && ctx.rng.chance(1, 2) { b[1] = *ctx.rng.pick(&[0u8, 0xff, 0xfe]); } } raws.push(b); }
+	for b in raws.iter() {
+		let a = rd_ans(coll_rd(b)); ctx.rec.case(&format!("colllen_rd {}", hex(b)), &a, &format!("colllen_rd:raw:{}", a.split(' ').next().unwrap()), true);
+		let a = rd_ans(big_rd(b)); ctx.rec.case(&format!("bigsize_rd {}", hex(b)), &a, &format!("bigsize_rd:raw:{}", a.split(' ').next().unwrap()), true);
+		let w = *ctx.rng.pick(&[2usize, 4, 8]); let a = rd_ans(vh::hzd_read(w, b)); ctx.rec.case(&format!("hzd_rd {} {}", w, hex(b)), &a, &format!("hzd_rd:raw:{}", a.split(' ').next().unwrap()), true);
+	}
+	// ---- collections of boundary size, on the real code only -------------------------------------------------
+	fn rt<T: Writeable + Readable + PartialEq>(ctx: &mut Ctx, what: &str, n: usize, v: T) {
+		let r = guarded(AssertUnwindSafe(|| { let b = v.encode(); let mut s = &b[..]; let r = <T as Readable>::read(&mut s); (b.len(), hex(&b[..12.min(b.len())]), r.map(|x| (x == v, s.len()))) }));
+		ctx.bump(&format!("boundary-collection:{}", what));
+		match r { Ok((_, _, Ok((true, 0)))) => {}, other => ctx.fail_once(&format!("boundary:{}", what), format!("a {} with exactly {} entries does not survive write + read: {:?} (encoded length, first bytes, read result (equal, unread))", what, n, other)) }
+	}
+	let logger: &'static TestLogger = Box::leak(Box::new(TestLogger::new()));
+	let graph: &'static NetworkGraph<&TestLogger> = Box::leak(Box::new(NetworkGraph::new(bitcoin::Network::Testnet, logger)));
+	for n in [0xfffeusize, 0xffff, 0x10000] {
+		rt(ctx, "Vec<u8>", n, (0..n).map(|i| (i * 7) as u8).collect::<Vec<u8>>());
+		rt(ctx, "String", n, "c".repeat(n));
+		rt(ctx, "Vec<u32>", n, (0..n as u32).collect::<Vec<u32>>());
+		rt(ctx, "BTreeMap<u64,u16>", n, (0..n as u64).map(|i| (i * 3, i as u16)).collect::<BTreeMap<u64, u16>>());
+		let mut hm = lightning::util::hash_tables::new_hash_map(); for i in 0..n as u64 { hm.insert(i + 5, (i % 251) as u8); }
+		rt(ctx, "HashMap<u64,u8>", n, hm);
+		let mut hs = lightning::util::hash_tables::new_hash_set(); for i in 0..n as u64 { hs.insert(i ^ 0x5555); }
+		rt(ctx, "HashSet<u64>", n, hs);
+		// ProbabilisticScorer with n channel liquidities: ChannelLiquidities = write_tlv_fields!{ (0, HashMap<u64, ChannelLiquidity>) }
+		let entry = match &st.scorer_entry { Some(e) => e.clone(), None => { ctx.rec.discarded += 1; continue; } };
+		let mut body = colllen_by_hand(n as u64);
+		for i in 0..n as u64 { body.extend_from_slice(&(1_000_000 + i).to_be_bytes()); body.extend_from_slice(&entry); }
+		let mut recb = bigsize(0); recb.extend(bigsize(body.len() as u64)); recb.extend(body);
+		let mut full = bigsize(recb.len() as u64); full.extend(recb);
+		let params = ProbabilisticScoringDecayParameters::default();
+		let rd = |b: &[u8]| guarded(AssertUnwindSafe(|| { let mut s = b; <ProbabilisticScorer<&NetworkGraph<&TestLogger>, &TestLogger>>::read(&mut s, (params, graph, logger)).map(|x| (x, s.len())) }));
+		match rd(&full) {
+			Ok(Ok((sc1, 0))) => {
+				let b1 = sc1.encode();
+				match rd(&b1) {
+					Ok(Ok((sc2, 0))) => {
+						let (c0, c1, c2) = (canon_scorer(&full), canon_scorer(&b1), canon_scorer(&sc2.encode()));
+						if c0.is_none() || c0 != c1 || c1 != c2 || c0.as_ref().map(|c| c.len()) != Some(n) { ctx.fail_once("boundary:scorer", format!("a ProbabilisticScorer with exactly {} channel liquidities does not round trip: entries {:?} -> {:?} -> {:?}; written prefix {}", n, c0.map(|c| c.len()), c1.map(|c| c.len()), c2.map(|c| c.len()), hex(&b1[..24.min(b1.len())]))); }
+						else { st.n_scorer += 1; ctx.bump("boundary-collection:ProbabilisticScorer"); }
+					},
+					other => ctx.fail_once("boundary:scorer", format!("a ProbabilisticScorer with exactly {} channel liquidities (scids 1000000.., each entry {}) is written as {} bytes starting {} and does NOT read back: {:?}", n, hex(&entry), b1.len(), hex(&b1[..24.min(b1.len())]), other.map(|r| r.map(|x| x.1)))),
+				}
+			},
+			other => ctx.fail_once("boundary:scorer-crafted", format!("crafted ProbabilisticScorer encoding with {} entries not readable: {:?}", n, other.map(|r| r.map(|x| x.1)))),
+		}
+	}
+}
+
 fn main() {
 	let args = &parse_args("c12");
 	silence_stdout();
@@ -1303,6 +1407,9 @@ fn main() {
 
 	// ---- (vi) rare manager states, written and reloaded at every cut point, with the behavioural comparison ----------
 	if std::env::var("C12_ONLY").is_err() { rare_states(args.seed, &mut st, &mut ctx); }
+
+	// ---- (vii) length / integer primitives + boundary-size collections ---------------------------------------------
+	if std::env::var("C12_ONLY").is_err() { ser_prims(&mut st, &mut ctx); }
 
 	// ---- (iv) malformed streams + op lines -----------------------------------------------------------
 	let (n_frame, n_corrupt) = if args.thorough { (40, 60) } else { (14, 12) };
